@@ -2,6 +2,7 @@
 
 payload: {"cases": [case, ...]};  case = {"A": world, "B": world}
 world = {
+  "base2origin": None | [16],      # base_frame2origin of the BVH constructor
   "urdf": None | {"name": str, "links": [{"name": str, "collisions": [{"name": str|None,
             "kind": sphere|box|cylinder, "params": {...}, "origin": [x,y,z,r,p,y]}]}],
             "joints": [{"name", "type": revolute|prismatic|fixed|continuous, "parent", "child",
@@ -128,8 +129,12 @@ class World:
         else:
             self.tm = TransformManager()
             self.base = "base"
-        self.bvh = BoundingVolumeHierarchy(self.tm, self.base)
+        if w.get("base2origin") is not None:
+            self.bvh = BoundingVolumeHierarchy(self.tm, self.base, base_frame2origin=arr44(w["base2origin"]))
+        else:
+            self.bvh = BoundingVolumeHierarchy(self.tm, self.base)
         self.extra_obj = {}
+        self.added = set()
 
     # -- object registry -------------------------------------------------
     def register(self, obj, kind, params, pose0):
@@ -176,7 +181,9 @@ class World:
                 p = self.tm_pose(f)
                 e["stamp_tm"] = None if p is None else self.stamp(i, p)
             ent.append(e)
-        snap = dict(entries=ent,
+        snap = dict(entries=ent, added=sorted(self.added),
+                    collider_frames=sorted(self.bvh.get_collider_frames()),
+                    get_colliders=[self.oid(c) for c in self.bvh.get_colliders()],
                     ext=[None if d is None else [d[0], self.oid(d[1])] for d in self.bvh.aabbtree_.external_data_list],
                     wl={k: list(v) for k, v in self.bvh.self_collision_whitelists_.items()})
         if with_narrow:
@@ -221,6 +228,7 @@ class World:
                         i = self.register(c, kind, params, rec["tm"][f])
                         new.append([f, i])
                 rec["new"] = new
+                self.added |= set(frames)
                 rec["tm"] = {f: (None if p is None else self._stamp_frame(f, p)) for f, p in rec["tm"].items()}
                 if cmd.get("whitelists", False):
                     rec["transforms"] = [[a, b] for a, b in tm.transforms.keys()]
@@ -244,6 +252,7 @@ class World:
                     self.extra_obj[cmd["extra"]] = obj
                 rec["frame"], rec["oid"] = frame, i
                 bvh.add_collider(frame, obj)
+                self.added.add(frame)
             elif op == "set_joint":
                 tm.set_joint(cmd["joint"], cmd["value"])
             elif op == "move":
